@@ -26,6 +26,11 @@ VOCAB = ["permit", "deny", "remark", "ip", "tcp", "udp", "icmp", "6", "256", "an
          "standard", "object-group network", "object-group ip address", "description", "statistics", "interface",
          "ip access-group", "in", "out", "!", "1.1.1.1 0.0.0.0", "0.0.0.0 0.0.0.0", "0.0.0.0 255.255.255.255"]
 TIME_LIMIT = 5.0
+# member lines of address groups: every form complete, and cut short / glued after each of its words
+MEMBER_LINES = ["group-object X", "group-object", "group-object ", "20 group-object", "20 group-object X", "group-objectX",
+                "host 10.0.0.1", "host", "host ", "10 host", "hostX", "10.0.0.0 255.255.255.0", "10.0.0.0", "10.0.0.0 ",
+                "10.0.0.0/24", "10.0.0.0/", "/24", "30 10.0.0.0/24", "30", "range 10.0.0.1 10.0.0.9", "range 10.0.0.1", "range",
+                "description", "description d", "10.0.0.0 0.0.0.255", "any", "object-group X", "addrgroup X", "addrgroup"]
 
 
 def soup(rnd):
@@ -42,13 +47,16 @@ def gen_text(rnd, ca):
         for _ in range(rnd.randint(0, 2)):
             toks = acetext.malformed(rnd, toks)
         return acetext.with_ws(rnd, toks)
-    if r < 0.8:
+    if r < 0.77:
         return rnd.choice(["", " ", "\t", "\n", "  \n \n", "remark", "10", "permit", "any", "/", ".", "0", "host"])
+    if r < 0.8:
+        # one member line of an address group, complete or cut short after any of its words (AddressAg / Address)
+        return rnd.choice(MEMBER_LINES)
     if r < 0.86:
         # an address-group text: a valid or near-valid header, then member lines of every quality
         head = rnd.choice(["object-group network G", "object-group ip address G", "object-group network", "object-group G"])
         pool = ["host 10.0.0.1", "10.0.0.0 255.255.255.0", "10.0.0.0/24", "10 host 10.0.0.2", "description d", "range 10.0.0.1 10.0.0.9",
-                "host", "group-object X", "10.0.0.0 0.0.0.255", "20 10.0.0.0 0.0.0.255", "any", "bogus 1", ""]
+                "host", "group-object X", "10.0.0.0 0.0.0.255", "20 10.0.0.0 0.0.0.255", "any", "bogus 1", ""] + MEMBER_LINES
         return "\n".join([head] + [" " * rnd.choice([0, 1, 2]) + rnd.choice(pool) for _ in range(rnd.randint(0, 3))])
     if r < 0.92:
         # an interface section with bindings of every quality
@@ -131,7 +139,9 @@ def correspond(ctx):
     for i in range(n):
         text = gen_text(rnd, ca)
         name = rnd.choice(list(cons))
-        if text.startswith("object-group") and rnd.random() < 0.8:      # texts shaped for one constructor go to it
+        if text in MEMBER_LINES and rnd.random() < 0.85:
+            name = rnd.choice(["AddressAg", "AddressAg", "Address", "AddrGroup"])
+        elif text.startswith("object-group") and rnd.random() < 0.8:      # texts shaped for one constructor go to it
             name = rnd.choice(["AddrGroup", "AddrGroup", "addrgroups"])
         elif "interface Gi1" in text and rnd.random() < 0.8:
             name = rnd.choice(["acls", "acls", "Acl", "aces"])
